@@ -624,6 +624,9 @@ func (b *BaseStore) Sync(ctx context.Context, heads []ipfslog.Entry) error {
 		return nil
 	}
 
+	// heads that passed the checks below; only these are handed to the replicator
+	accepted := make([]ipfslog.Entry, 0, len(heads))
+
 	for _, h := range heads {
 		if h == nil {
 			b.Logger().Debug("warning: Given input entry was 'null'.")
@@ -662,9 +665,14 @@ func (b *BaseStore) Sync(ctx context.Context, heads []ipfslog.Entry) error {
 		}
 
 		span.AddEvent("store-sync-head-verified")
+		accepted = append(accepted, h)
 	}
 
-	go b.Replicator().Load(ctx, heads)
+	if len(accepted) == 0 {
+		return nil
+	}
+
+	go b.Replicator().Load(ctx, accepted)
 
 	return nil
 }
@@ -974,8 +982,9 @@ func (b *BaseStore) replicationLoadComplete(ctx context.Context, logs []ipfslog.
 	for _, log := range logs {
 		_, err := oplog.Join(log, -1)
 		if err != nil {
+			// a rejected log must not keep the other fetched logs from being merged
 			b.Logger().Error("unable to join logs", zap.Error(err))
-			return
+			continue
 		}
 
 		entries = append(entries, log.GetEntries().Slice()...)
